@@ -783,9 +783,6 @@ theorem applyFunction_sim_step {Ïƒ : Sh} {fuel : Nat} (ih : SimSpec Ïƒ fuel) : â
           âŸ¨hR2.cfg, hR2.extNames, hR2.depth, hR2.steps, by simp only [hR2.outs], hR2.cache, rfl, hR2.root, hR2.size, hR2.n0,
             hR2.pos, hR2.frames, hR2.decâŸ©) ?_
         intro _ _ s3 t3 hR3 _
-        refine sim_getFrame_bind hR3 nenv ?_
-        intro fs0 ft0 _ _ hfr0
-        rw [(hfr0.counters hnenv).1]
         refine SimAt.bind (ih.eval _ _ _ hR3) ?_
         rintro _ res s4 t4 hR4 rfl
         refine sim_getFrame_bind hR4 nenv ?_
